@@ -135,6 +135,7 @@ class Interp:
         self._feas_cache = {}
         self._quant_cache = {}
         self._quant_keep = []
+        self._global_keep = []
         self._globals_cache = {}
         self._resolving = set()
         self._class_cache = {}
@@ -426,6 +427,21 @@ class Interp:
             return st.alloc(ObjE(v.cls, {k: self.thaw(x, st) for k, x in v.attrs.items()}))
         return v
 
+    def thaw_global(self, v, st):
+        """A module-level (or harness-level) container / object is ONE object per path: the first access in a path
+        materialises it from its initial value, later accesses see the same object (so `byName[k] = x` in one
+        function is visible to the next reader), forks copy it with the store.  Keyed by the identity of the frozen
+        initial value, which the globals cache keeps alive."""
+        if isinstance(v, (FrozenList, FrozenDict, FrozenNd, FrozenObj, frozenset)):
+            k = ("modglobal", id(v))
+            r = st.ghost.get(k)
+            if r is None or r.id not in st.store:
+                r = self.thaw(v, st)
+                st.ghost[k] = r
+                self._global_keep.append(v)
+            return r
+        return self.thaw(v, st)
+
     def lookup(self, name, st):
         fr = st.frame
         if name in fr.vars:
@@ -433,15 +449,15 @@ class Interp:
         if fr.func is not None and fr.func.closure is not None and name in fr.func.closure:
             return fr.func.closure[name]
         if fr.is_harness and name in self.extra_globals:
-            return self.thaw(self.extra_globals[name], st)
+            return self.thaw_global(self.extra_globals[name], st)
         mi = fr.module
         if mi is not None:
             try:
-                return self.thaw(self.resolve_global(mi, name), st)
+                return self.thaw_global(self.resolve_global(mi, name), st)
             except KeyError:
                 pass
         if name in self.extra_globals and fr.func is None:
-            return self.thaw(self.extra_globals[name], st)
+            return self.thaw_global(self.extra_globals[name], st)
         if name in self.builtins:
             return self.builtins[name]
         raise Unsupported("unbound name %s in %s" % (name, fr.func))
@@ -675,7 +691,42 @@ class Interp:
             ):
                 yield st1, "".join(str(self.py_for_str(v)) for v in vs)
             else:
-                yield st1, Opaque("fstring")
+                yield st1, self._fstring_symbolic(node, vs)
+
+    def _fstring_symbolic(self, node, vs):
+        """f-string with symbolic int fields (specs as in values.fmt_int_field) -> FmtStr; anything else: uninterpreted"""
+        from .values import FmtStr, fmt_int_field, build_fmtstr
+
+        parts = []
+        for n, v in zip(node.values, vs):
+            if not isinstance(n, ast.FormattedValue):
+                if not isinstance(v, str):
+                    return Opaque("fstring")
+                parts.append(("lit", v))
+                continue
+            spec = ""
+            if n.format_spec is not None:
+                if not all(isinstance(x, ast.Constant) and isinstance(x.value, str) for x in n.format_spec.values):
+                    return Opaque("fstring")
+                spec = "".join(x.value for x in n.format_spec.values)
+            if n.conversion != -1:
+                return Opaque("fstring")
+            v = as_arith(v) if not isinstance(v, str) else v
+            if isinstance(v, str):
+                try:
+                    parts.append(("lit", format(v, spec)))
+                except ValueError:
+                    return Opaque("fstring")
+            elif isinstance(v, FmtStr) and not spec:
+                parts.extend(v.parts)
+            elif (isinstance(v, int) and not isinstance(v, bool)) or (is_z3(v) and z3.is_int(v)):
+                p = fmt_int_field(v, spec)
+                if p is None:
+                    return Opaque("fstring")
+                parts.append(p)
+            else:
+                return Opaque("fstring")
+        return build_fmtstr(parts)
 
     def py_for_str(self, v):
         if isinstance(v, Fraction):
